@@ -787,7 +787,14 @@ class Vector(AutoSerialize):
         TypeError
             If value is not a tuple or contains non-integer values.
         """
-        self._shape = validate_shape(value)
+        validated = validate_shape(value)
+        # The nested lists in _data are laid out for the shape the vector was created with
+        if hasattr(self, "_data") and validated != self._shape:
+            raise ValueError(
+                f"Cannot change the shape of a Vector from {self._shape} to {validated}; "
+                "slice it or create a new Vector instead."
+            )
+        self._shape = validated
 
     @property
     def num_fields(self) -> int:
@@ -854,7 +861,13 @@ class Vector(AutoSerialize):
         TypeError
             If value is not a list or contains non-string values.
         """
-        self._fields = validate_fields(value)
+        validated = validate_fields(value)
+        # Renaming keeps one name per stored column (add_fields / remove_fields change the count)
+        if hasattr(self, "_fields") and len(validated) != len(self._fields):
+            raise ValueError(
+                f"Length of fields ({len(validated)}) must match num_fields ({len(self._fields)})"
+            )
+        self._fields = validated
 
     @property
     def units(self) -> List[str]:
